@@ -9,7 +9,6 @@ From V Require Model.Time Model.DateTime Model.C08.
 Import ListNotations.
 Open Scope Z_scope.
 Ltac Zify.zify_post_hook ::= Z.to_euclidean_division_equations.
-Set Default Timeout 120.
 
 (** * succ_opt / pred_opt *)
 Definition succ_ok (lo : Z) : bool :=
